@@ -141,8 +141,9 @@ def item_groups(it):
         for n in ins:
           if n == 's.clk': continue
           sim.set(n, z3.BitVec(f"{n}@{t}", sim.by_name[n].nbits))
-        top.sim_eval_combinational(); trace.append(sim.state_terms())
-        top.sim_tick(); trace.append(sim.state_terms())
+        if t % 2 == 0:
+          top.sim_eval_combinational(); trace.append(sim.state_terms())
+        top.sim_tick(); trace.append(sim.state_terms())      # odd cycles: inputs change and the clock ticks with no explicit evaluation in between
       return trace
     ex = Explorer(max_paths=64)
     runs[g] = [(pc, tr, exc) for pc, tr, exc in ex.paths(run)]
@@ -208,7 +209,7 @@ def main():
   tier = sys.argv[1] if len(sys.argv) > 1 else 'quick'
   chk = Check('C01', tier)
   shapes, hand, ff, std = corpus(tier, chk.seed)
-  K = 2 if tier == 'quick' else 4
+  K = 3 if tier == 'quick' else 5
   items = []
   for n in std + ff + hand: items.append(dict(kind='groups', name=n, K=K))
   for n in std + ff + hand + shapes: items.append(dict(kind='sched', name=n))
